@@ -110,6 +110,7 @@ type c13Gen struct {
 	labels map[string]bool
 	lib    *mj.File
 	decls  []string // names declared inside try / catch bodies
+	marker bool     // the entry template and every included template define a block "marker" of their own
 }
 
 func (g *c13Gen) n(lo, hi int, l string) int { return rapid.IntRange(lo, hi).Draw(g.t, l) }
@@ -168,6 +169,10 @@ func (g *c13Gen) path(depth int, inner []*mj.Node) []*mj.Node {
 	case 7:
 		g.labels["below:include-context"] = true
 		f := &mj.File{Path: "/inc/" + g.id("f") + ".jet", Body: body}
+		if g.marker {
+			// the included template brings a block of the same name as one of its includer
+			f.Body = append([]*mj.Node{{K: "block", Name: "marker", Body: []*mj.Node{mj.Text("[marker of " + f.Path + "]")}}}, f.Body...)
+		}
 		g.p.Files = append(g.p.Files, f)
 		mid = []*mj.Node{{K: "include", E: mj.Str(f.Path), Ctx: mj.Str(g.id("ictx"))}}
 	default:
@@ -243,6 +248,10 @@ func (g *c13Gen) tryStmt(inBlockWithContent bool) []*mj.Node {
 			g.decls = append(g.decls, n.Name)
 		}
 		n.Catch = []*mj.Node{mj.Text("(caught, err set:"), mj.Print(mj.Call("isset", mj.Var(n.Name))), mj.Text(")"), mj.Let(cv, mj.Str("c")), mj.Text("(.="), mj.Print(mj.Dot()), mj.Text(")")}
+		if g.marker {
+			// the catch body belongs to the template the try stands in: its blocks, not those of whatever failed
+			n.Catch = append(n.Catch, mj.Text("(catch sees "), &mj.Node{K: "yield", Name: "marker"}, mj.Text(")"))
+		}
 		g.labels["catch-with-variable"] = true
 		if g.n(0, 5, "catchfails") == 0 {
 			n.Catch = append(n.Catch, g.failure())
@@ -257,6 +266,9 @@ func (g *c13Gen) tryStmt(inBlockWithContent bool) []*mj.Node {
 	}
 	if inBlockWithContent {
 		out = append(out, mj.Text("{content:"), &mj.Node{K: "ycontent"}, mj.Text("}"))
+	}
+	if g.marker {
+		out = append(out, mj.Text("(after try "), &mj.Node{K: "yield", Name: "marker"}, mj.Text(")"))
 	}
 	out = append(out, mj.Text("more text"))
 	return out
@@ -273,6 +285,10 @@ func genC13(t *rapid.T) c13Case {
 	}}
 	main := &mj.File{Path: "/main.jet", Imports: []string{"/lib.jet"}}
 	g.p.Files = []*mj.File{main, g.lib}
+	g.marker = g.n(0, 2, "markerBlocks") == 0
+	if g.marker {
+		g.labels["blocks-of-the-same-name-in-includer-and-included"] = true
+	}
 	var body []*mj.Node
 	switch g.n(0, 4, "placement") {
 	case 0:
@@ -300,6 +316,9 @@ func genC13(t *rapid.T) c13Case {
 		body = []*mj.Node{{K: "include", E: mj.Str(f.Path), Ctx: mj.Str("hostctx")}, mj.Text("(.="), mj.Print(mj.Dot()), mj.Text(")")}
 	}
 	main.Body = append(append([]*mj.Node{mj.Text("<main>")}, body...), mj.Text("</main>"))
+	if g.marker {
+		main.Body = append([]*mj.Node{{K: "block", Name: "marker", Body: []*mj.Node{mj.Text("[marker of main]")}}}, main.Body...)
+	}
 	failFiles(g.p)
 	c := c13Case{Prog: g.p}
 	src := mj.NewPrinter().Sources(g.p)
